@@ -339,7 +339,7 @@ pub fn run(ctx: &mut Ctx) -> (&'static str, String, bool) {
         },
     };
     let asan = ctx.stage.as_deref() == Some("asan");
-    let reps = if asan { 1 } else { ctx.tier.pick(2usize, 30usize) };
+    let reps = if asan { 3 } else { ctx.tier.pick(3usize, 40usize) };
     let mut p = Part::new();
     let mut r = ctx.rng.fork(20);
     let mut done = 0;
